@@ -54,6 +54,9 @@ pub fn case_to(c: &Case) -> Value {
         "runs": c.runs.iter().map(|r| json!({
             "batch_size": r.batch_size, "fd_limit": r.fd_limit, "threads": r.threads,
             "schedule": sched_to(&r.sched),
+            "fd_headroom": r.fd_headroom,
+            "fd_starved_from_batch": r.fd_from_batch,
+            "fd_starved_for_batches": r.fd_for_batches,
         })).collect::<Vec<_>>(),
     })
 }
@@ -75,6 +78,9 @@ pub fn case_from(v: &Value) -> Result<Case, String> {
             fd_limit: r["fd_limit"].as_u64().ok_or("fd_limit")? as u32,
             threads: r["threads"].as_u64().ok_or("threads")? as u32,
             sched: sched_from(&r["schedule"])?,
+            fd_headroom: r["fd_headroom"].as_u64().map(|x| x as u32),
+            fd_from_batch: r["fd_starved_from_batch"].as_u64().unwrap_or(0) as u32,
+            fd_for_batches: r["fd_starved_for_batches"].as_u64().unwrap_or(0) as u32,
         });
     }
     let trailing_newline = v["trailing_newline"]
